@@ -76,13 +76,20 @@ Definition counts (cfg : config) (closed : list Z) (c : Z) (oa : obsaddr) : opti
          end
   end.
 
+Definition pair_eqb (a b : Z * Z) : bool := (fst a =? fst b) && (snd a =? snd b).
+
 Definition mon_close (cl : list Z) (c : Z) : list Z := if zmem c cl then cl else c :: cl.
 
 Definition mon_step (cfg : config) (m : mon) (o : op) : mon :=
   match o with
   | Observe c oa =>
       match counts cfg (m_closed m) c oa with
-      | Some lx => mkMon (set Z.eqb c lx (m_cred m)) (m_closed m)
+      | Some lx =>
+          match get Z.eqb c (m_cred m) with
+          | Some old => if pair_eqb old lx then m   (* the same report again *)
+                        else mkMon (set Z.eqb c lx (m_cred m)) (m_closed m)
+          | None => mkMon (set Z.eqb c lx (m_cred m)) (m_closed m)
+          end
       | None => m
       end
   | MarkClosed c => mkMon (m_cred m) (mon_close (m_closed m) c)
@@ -169,8 +176,6 @@ Definition holds (cfg : config) (tr : list (op * obs)) : bool :=
   match mon_run cfg mon_init 0 tr with [] => true | _ => false end.
 
 (* ---- conformance: the model replayed against the observations ---------------- *)
-Definition pair_eqb (a b : Z * Z) : bool := (fst a =? fst b) && (snd a =? snd b).
-
 Definition obs_eqb (a b : obs) : bool :=
   list_eqb (list_eqb Z.eqb) (o_for a) (o_for b) && list_eqb pair_eqb (o_all a) (o_all b).
 
